@@ -780,8 +780,14 @@ def monitor_final(ctx: fw.Ctx, net: Net) -> None:
             r = recs[op.id]
             # (a killed operator's record legitimately lives until lastseen + its configured lifetime)
             if is_live(r, now) and (op.exited or r[2] is None or now >= r[2] + op.spec['life'] * 1000):
+                # the cause, if it is in the request log of this history: a touch() issued from process_peering_event by an
+                # incarnation that had already written its withdrawal, and whose instant is this record's lastseen (F1302)
+                cause = [a for a in net.after_exit if a['operator'] == op.id and a['from'] == 'process_peering_event'
+                         and a['at_ms'] == r[2] and a['patch'].get('status', {}).get(op.id) is not None]
                 ctx.fail('an operator that exited or was killed long ago still has a live record',
-                         {'scenario': sc, 'operator': op.id}, observed={'record': r, 'at_ms': now}, sig='net-zombie-record')
+                         {'scenario': sc, 'operator': op.id, 'post_withdrawal_touch': cause[0] if cause else None},
+                         observed={'record': r, 'at_ms': now},
+                         sig='net-zombie-record-written-after-withdrawal' if cause else 'net-zombie-record')
     for v in net.bad_records[:3]:
         ctx.fail('the record an operator writes for itself does not carry its configured priority / lifetime',
                  {'scenario': sc, **v}, sig='net-record-wrong')
